@@ -300,6 +300,49 @@ def _race_block(rng, nkeys, hot, wkinds):
     return a, b
 
 
+def _overlap_block(rng, nkeys, hot, cap):
+    """Scripted overlap of two or three writes to ONE key from different clients (second issued before the
+    first has reached the backing store), the key leaving the cache after the last of them was issued (explicit
+    invalidate, or `cap` puts to other keys), and several miss-reads whose backing-store read lands before / between /
+    after the landings of the writes.  Every scripted op sits on its own client with an absolute start time.
+    Returns (clients, lat)."""
+    rl = rng.choice([1, 2]) * MS
+    wl = rng.choice([6, 8, 12]) * MS
+    dl = rng.choice([None, None, 4 * MS, 10 * MS])
+    lat = {"cache": rng.choice([0.0, 0.0001, 0.0005]), "read": rl, "write": wl, "delete": dl}
+    kinds = rng.choice([["put", "put"], ["put", "put"], ["put", "put"], ["put", "delete"], ["delete", "put"], ["put", "put", "put"], ["put", "delete", "put"]])
+    t0 = rng.choice([0.0, 0.0005, 0.001])
+    starts, t = [], t0
+    for i, _k in enumerate(kinds):
+        if i:
+            t += rng.choice([0.0005, 0.001, 0.002, 0.003, 0.25 * wl, 0.5 * wl]) + (rng.randrange(0, 500) * 1e-6 if rng.random() < 0.3 else 0.0)
+        starts.append(round(t, 7))
+    lands = [round(st + (wl if k == "put" else (dl if dl is not None else wl)), 7) for st, k in zip(starts, kinds)]
+    clients = [{"start": st, "ops": [[0.0, k, hot]]} for st, k in zip(starts, kinds)]
+    # the key leaves the cache after the last write was issued
+    te = round(starts[-1] + rng.choice([0.0001, 0.0003, 0.0005]), 7)
+    how = rng.choice(["inv", "inv", "pressure", "pressure", "pressure"])
+    if how == "inv":
+        clients.append({"start": te, "ops": [[0.0, "inv", hot]]})
+    else:
+        others = [k for k in range(nkeys) if k != hot]
+        rng.shuffle(others)
+        for k in others[: min(cap, len(others))]:
+            clients.append({"start": te, "ops": [[0.0, rng.choice(["put", "put", "get"]), k]]})
+    # miss-reads: store read lands at (issue + rl); aim before the first landing, between landings, after the last
+    lo, hi = min(lands), max(lands)
+    targets = [lo - rng.choice([0.0001, 0.0005]), lo + rng.random() * (hi - lo), lo + rng.random() * (hi - lo), hi + rng.choice([0.0001, 0.0005, 0.001])]
+    if len(lands) > 2:
+        mid = sorted(lands)[1]
+        targets.append(mid + rng.choice([-0.0002, 0.0002]))
+    rng.shuffle(targets)
+    for tg in targets[: rng.randint(2, len(targets))]:
+        issue = round(max(te + 0.00005, tg - rl), 7)
+        follow = [[_gap(rng), "get", hot]] if rng.random() < 0.6 else []
+        clients.append({"start": issue, "ops": [[0.0, "get", hot], *follow]})
+    return clients, lat
+
+
 # --------------------------------------------------------------------------
 # family: cached  (CachedStore x policy x write mode, optional CacheWarmer)
 
@@ -308,7 +351,7 @@ def gen_cached(rng: random.Random, tier: str) -> dict:
     nkeys = rng.randint(4, 6)
     cap = rng.randint(1, 3) if rng.random() < 0.9 else nkeys
     wt = rng.random() < 0.5
-    profile = rng.choice(["mixed", "mixed", "race", "sequential"])
+    profile = rng.choice(["mixed", "mixed", "race", "sequential", "overlap"])
     nclients = rng.randint(2, 4)
     hot = rng.randrange(nkeys)
     weights = {"get": 36, "put": 30, "delete": 8, "inv": 7, "invall": 2, "flush": 6 if not wt else 1, "bput": 4, "bdel": 1}
@@ -325,6 +368,16 @@ def gen_cached(rng: random.Random, tier: str) -> dict:
         a, b = _race_block(rng, nkeys, hot, ["put", "put", "delete"])
         clients[0]["ops"] = a + clients[0]["ops"]
         clients[1]["ops"] = b + clients[1]["ops"]
+    lat = _lat(rng)
+    if profile == "overlap":
+        if rng.random() < 0.6:
+            wt = True
+        block, lat = _overlap_block(rng, nkeys, hot, cap)
+        # the scripted clients come first; the random clients start while the writes are in flight or after them
+        for c in clients[: rng.randint(0, 2)]:
+            c["start"] = round(c["start"] + rng.choice([0.0, 0.004, 0.02]), 7)
+            block.append(c)
+        clients = block
     if profile == "sequential":
         t = 0.0
         for c in clients:
@@ -339,7 +392,7 @@ def gen_cached(rng: random.Random, tier: str) -> dict:
         "write_through": wt,
         "capacity": cap,
         "nkeys": nkeys,
-        "lat": _lat(rng),
+        "lat": lat,
         "init": [rng.random() < 0.7 for _ in range(nkeys)],
         "profile": profile,
         "clients": clients,
@@ -374,6 +427,7 @@ def run_cached(case: dict) -> Result:
     wb = not case["write_through"]
     tiers = [Tier("cache", store, policy, case["policy"]["name"], write_back=wb)]
     mon = Mon(res, "CachedStore", store, backing, keys, tiers, init)
+    mon.order_put_delete = bool(case["write_through"])
     ctx = _Ctx(mon, len(case["clients"]))
     clients = [Client(f"client{ci}", ctx, ci, c["ops"], keys) for ci, c in enumerate(case["clients"])]
     settle = 4 * max(lat["read"], lat["write"], lat["delete"] or 0.0) + 0.01
@@ -430,12 +484,19 @@ def gen_multitier(rng: random.Random, tier: str) -> dict:
             a[0] = [0.0, "l2get", hot]  # make the racing read an L2 hit (promotion) instead of a miss
         clients[0]["ops"] = a + clients[0]["ops"]
         clients[1]["ops"] = b + clients[1]["ops"]
+    lat = _lat(rng)
+    if rng.random() < 0.25:
+        # overlapping writes to one key from different clients, the key leaving L1 in between, misses landing between the landings
+        block, lat = _overlap_block(rng, nkeys, hot, 2)
+        for c in block:
+            c["start"] = round(c["start"] + 0.05, 7)
+        clients = block + clients[: rng.randint(0, 2)]
     return {
         "promotion": rng.choice(["always", "on_second_access", "never"]),
         "l1": {"policy": gen_policy(rng), "capacity": rng.randint(1, 2), "latency": rng.choice([0.0, 0.0001, 0.0005]), "write_through": rng.random() < 0.85},
         "l2": {"policy": gen_policy(rng), "capacity": rng.randint(2, 4), "latency": rng.choice([0.0005, 0.001, 0.002]), "write_through": True},
         "nkeys": nkeys,
-        "lat": _lat(rng),
+        "lat": lat,
         "init": [rng.random() < 0.8 for _ in range(nkeys)],
         "prewarm": [rng.randrange(nkeys) for _ in range(rng.randint(0, 4))],
         "clients": clients,
@@ -467,6 +528,7 @@ def run_multitier(case: dict) -> Result:
         tiers.append(Tier(label, st, pol, spec["policy"]["name"], write_back=False))
     multi = MultiTierCache("multi", tiers=[t.store for t in tiers], backing_store=backing, promotion_policy=case["promotion"])
     mon = Mon(res, "MultiTierCache", multi, backing, keys, tiers, init)
+    mon.order_put_delete = bool(case["l1"]["write_through"])
     ctx = _Ctx(mon, len(case["clients"]) + 1)
     pre_ops = [[0.0, "l2get", ki] for ki in case.get("prewarm") or []]
     clients = [Client(f"client{ci}", ctx, ci, c["ops"], keys) for ci, c in enumerate(case["clients"])]
